@@ -1,2 +1,4 @@
 import PyndlProofs.RW
 import PyndlProofs.Dict
+import PyndlProofs.Kernel
+import PyndlProofs.Schedule
